@@ -2,8 +2,10 @@
    Only theorem statements closed by `exact`, non-vacuity examples, Print Assumptions, facts obligation.
 
    Partial in one respect only: the step from "instruction suffix" to "outcome statistics" is the
-   Born/Heisenberg hypothesis of Section Expectation (a Section Hypothesis, instantiated on a concrete
-   two-qubit state in the c11_ex_born examples).  Everything else (grouping, indices, masks, decoding, rotation
+   Born/Heisenberg hypothesis (a Section Hypothesis, instantiated on a concrete two-qubit state in the
+   c11_ex_born examples).  It is stated twice: about the abstract rotations `rotation_of` on the subsystem
+   (c11_expectation), and about the records read off the appended instruction suffix itself, with the interned
+   gate ids interpreted as matrices and qubit_locations taken into account (c11_expectation_circuit).  Everything else (grouping, indices, masks, decoding, rotation
    signs, suffix, refusals) is proved for all sizes. *)
 From Coq Require Import Sorted QArith.
 From CKT Require Import Common.Base Common.Circ Model.Observables Model.Grouping Model.Measurement
@@ -198,6 +200,27 @@ Proof.
   split; [apply append_circuit_refuses_no_register|apply append_circuit_refuses_size].
 Qed.
 
+(* The suffix interpreted: if the interned ids gh / gsx denote the matrices of H / SX, then walking the appended
+   suffix (composing the gates applied to a qubit since its last measurement) finds, for clbit position i and
+   subqubit s = pauli_indices_or_dummy[i], exactly one Z-measurement of circuit qubit qubit_locations[s] into register
+   bit i, preceded by U = rotation_of (letter of s), i.e. a measurement of U† Z U (read off the 2x2 matrix). *)
+Theorem c11_suffix_semantics : forall sem gh gsx g idx locs bits,
+  sem gh = gH -> sem gsx = gSX ->
+  readout sem (fun _ => gId) (measurement_suffix gh gsx g idx locs bits)
+  = map (fun ci => (nth (snd ci) locs 0, nth (fst ci) bits 0,
+                    signed_pauli_of (rotation_of (nth (snd ci) g 0)) mZ))
+        (combine (seq 0 (length (pauli_indices_or_dummy idx))) (pauli_indices_or_dummy idx)).
+Proof. exact readout_measurement_suffix. Qed.
+
+(* _process_outcome splits the outcome word at the width of the observable register
+   (len(pauli_indices) or 1 for the dummy): low part decoded with the masks, parity of the high part as QPD factor *)
+Theorem c11_process_outcome : forall idx masks obs qpd,
+  let k := N.of_nat (length (pauli_indices_or_dummy idx)) in
+  (obs < 2 ^ k)%N ->
+  process_outcome idx masks (obs + qpd * 2 ^ k)
+  = map (fun m => (sgn (Nat.odd (popcount qpd)) * decode m obs)%Z) masks.
+Proof. exact process_outcome_split. Qed.
+
 (* ---------------------------------------------------------------------------------------------
    expectation values
    --------------------------------------------------------------------------------------------- *)
@@ -226,6 +249,43 @@ Section Expectation.
     expect law (decode mask) == ev m.
   Proof. exact (expectation_member ev g law Born Letters). Qed.
 End Expectation.
+
+(* The same at circuit level.  The hypothesis now speaks about the instruction suffix actually appended:
+   its measurement records under a gate interpretation `sem`, the register's clbits and the circuit's qubits. *)
+Section ExpectationCircuit.
+  Open Scope Q_scope.
+  Variable sem : nat -> gate2.              (* interned gate id -> matrix (M / sqrt d) *)
+  Variables gh gsx : nat.
+  Variable ev_c : list nat -> Q.            (* state functional on Pauli strings over the circuit's qubits *)
+  Variable nqc : nat.                       (* number of circuit qubits *)
+  Variable g : list nat.                    (* letters of the general observable (subsystem qubits) *)
+  Variable locs : list nat.                 (* qubit_locations *)
+  Variable bits : list nat.                 (* clbits of the observable_measurements register *)
+  Variable law : list (N * Q).              (* outcome law of that register *)
+
+  Hypothesis SemH : sem gh = gH.
+  Hypothesis SemSX : sem gsx = gSX.
+  Hypothesis Letters : valid_letters g.
+  Hypothesis LocsInjective : NoDup locs.
+  Hypothesis LocsLength : length locs = length g.
+  Hypothesis BitsDistinct : NoDup bits.
+  Hypothesis BitsLength : length bits = length (pauli_indices_or_dummy (nonid_positions g)).
+  (* Born rule + Heisenberg picture for the appended suffix: for every sub-selection S of its measurement records
+       E_law[ prod_{r in S} (-1)^{bit of r's clbit} ] = sign(S) * ev_c( the records' Paulis on their circuit qubits ) *)
+  Hypothesis BornCircuit :
+    born_circuit ev_c nqc
+      (readout sem (fun _ => gId) (measurement_suffix gh gsx g (nonid_positions g) locs bits)) bits law.
+
+  (* the value decoded with the recorded bitmask is the expectation value of the member placed on the circuit's
+     qubits through qubit_locations *)
+  Theorem c11_expectation_circuit : forall m mask,
+    member_of g m -> mask_of m (nonid_positions g) = Some mask ->
+    expect law (decode mask) == ev_c (embed_letters nqc locs m).
+  Proof.
+    exact (expectation_circuit sem gh gsx ev_c nqc g locs bits law SemH SemSX Letters LocsInjective LocsLength
+             BitsDistinct BitsLength BornCircuit).
+  Qed.
+End ExpectationCircuit.
 
 (* the forced dummy measurement: an all-identity group measures qubit 0 into a 1-bit register,
    all masks are 0 and every outcome decodes to +1 *)
@@ -294,6 +354,22 @@ Proof. exact born_instance_ZX. Qed.
 Example c11_ex_born_YY : born (ev_st2 psi_ex) [2; 2] (law_st2 psi_ex [2; 2]).
 Proof. exact born_instance_YY. Qed.
 
+(* instances with an identity letter in the general observable, and the forced dummy measurement (g all identity:
+   qubit 0 is measured into a 1-bit register that no mask looks at) *)
+Example c11_ex_born_XI : born (ev_st2 psi_ex) [1; 0] (law_st2 psi_ex [1; 0]).
+Proof. exact born_instance_XI. Qed.
+Example c11_ex_born_IY : born (ev_st2 psi_ex) [0; 2] (law_st2 psi_ex [0; 2]).
+Proof. exact born_instance_IY. Qed.
+Example c11_ex_born_dummy : born (ev_st2 psi_ex) [0; 0] (law_st2 psi_ex [0; 0]).
+Proof. exact born_instance_dummy. Qed.
+
+(* the circuit-level hypothesis is satisfiable too: XY with qubit_locations [1; 0], gate id 7 = H, 9 = SX *)
+Example c11_ex_born_circuit :
+  born_circuit (ev_st2 psi_ex) 2
+    (readout sem_ex (fun _ => gId) (measurement_suffix 7 9 [1; 2] (nonid_positions [1; 2]) [1; 0] [0; 1]))
+    [0; 1] (law_st2_circ psi_ex [2; 1] [1; 0]).
+Proof. exact born_circuit_instance. Qed.
+
 (* ... and then c11_expectation gives the decoded value of the member "X on qubit 0" (mask 1) *)
 Example c11_ex_expectation :
   Qeq (expect (law_st2 psi_ex [1; 2]) (decode 1%N)) (ev_st2 psi_ex [1; 0]) /\
@@ -324,6 +400,9 @@ Print Assumptions c11_suffix.
 Print Assumptions c11_measure_ok.
 Print Assumptions c11_meas_refuses.
 Print Assumptions c11_expectation.
+Print Assumptions c11_expectation_circuit.
+Print Assumptions c11_suffix_semantics.
+Print Assumptions c11_process_outcome.
 Print Assumptions c11_dummy.
 
 (* tie to the source: the ValueError sites of the modelled functions are the ones modelled
